@@ -1,7 +1,7 @@
 (* C05 — an assembled BASM program means what its source says (one .romtext section over the
    simulated instruction subset: labels, entry directive, mov pseudo-instruction, sizing) *)
 From Coq Require Import List NArith Bool Arith String.
-From BM Require Import Isa.Sim Front.Basm Proofs.BasmProofs.
+From BM Require Import Net.Topo Isa.Sim Net.Tick Net.TickCheck Front.Basm Front.BasmCheck Proofs.BasmProofs Proofs.BasmMachine.
 Import ListNotations.
 
 (* the assembled program and the source proceed in lock step: same registers, ports and flags after
@@ -14,6 +14,27 @@ Theorem assembled_program_means_what_the_source_says :
   Rel src (iter n (sstep sync rsize src) s) (iter n (pstep rsize prog) m).
 Proof. exact assembled_program_follows_the_source. Qed.
 Print Assumptions assembled_program_means_what_the_source_says.
+
+(* the same for a whole machine: processors wired by bonds, every processor running the assembled program
+   of its section, ticking together under any environment (external input values and valid flags, external
+   received flags written before each tick): processor by processor the lock step holds after every tick,
+   and everything outside the processors is equal *)
+Theorem assembled_machine_means_what_its_sources_say :
+  forall t cfgs procs envs, Forall2 assembled cfgs procs ->
+  forall a b, VRel (map snd cfgs) a b -> VRel (map snd cfgs) (run_src t cfgs envs a) (run_rom t procs envs b).
+Proof. exact machine_follows_the_sources. Qed.
+Print Assumptions assembled_machine_means_what_its_sources_say.
+
+(* started as the simulator starts it, with every entry label in front of its first instruction, the machine
+   shows at its external outputs (values, valid flags) and input received flags what the sources say *)
+Theorem assembled_machine_output_streams_are_the_sources :
+  forall t cfgs procs rbits envs,
+  Forall2 assembled cfgs procs -> entries_first cfgs = true -> List.length (Topo.procs t) = List.length cfgs ->
+  let a := run_src t cfgs envs (start_at_entry cfgs (init_vm t rbits)) in
+  let b := run_rom t procs envs (init_vm t rbits) in
+  v_out a = v_out b /\ v_out_valid a = v_out_valid b /\ v_in_recv a = v_in_recv b.
+Proof. exact machine_started_at_the_entries_follows_the_sources. Qed.
+Print Assumptions assembled_machine_output_streams_are_the_sources.
 
 (* the machine starts at ROM address 0; that is where the source starts when the entry label stands
    in front of the first instruction (the directive itself may be anywhere) *)
